@@ -134,7 +134,7 @@ def run(ctx):
                 "closure after one period. Non-trivial: centroid at least 1.5 cells from the zero bin and >= 3 steps.")
     coq = vp_coq.full_check("C03", ctx, fams=("rf",))
     if ctx.quick():
-        dis = run_api(ctx, 80, 36)
+        dis = run_api(ctx, 240, 90)
     else:
         dis = run_api(ctx, 1200, 400)
         dis += run_program(ctx, 10)
